@@ -56,8 +56,9 @@ Proof. intros ops. apply lk_run_LInv. apply lk_init_LInv. Qed.
 Print Assumptions C20_lock_invariant.
 
 (* Several processes, in-process table + operating-system record lock.
-   If ldb_lock_file consults its table BEFORE opening the LOCK file, no directory is ever
-   open through two handles, in whatever order any processes open and close. *)
+   If ldb_lock_file consults its table BEFORE opening the LOCK file (the code since fix
+   96e3fcf), no directory is ever open through two handles, in whatever order any
+   processes open and close. *)
 Theorem C20_exclusive_processes_checked : forall ops d,
   (p_count_open d (mp_run true mp_init ops) <= 1)%nat.
 Proof.
@@ -67,12 +68,14 @@ Proof.
 Qed.
 Print Assumptions C20_exclusive_processes_checked.
 
-(* lcdb's order (open the LOCK file, find the directory in the table, close the
+(* lcdb's ORIGINAL order (open the LOCK file, find the directory in the table, close the
    descriptor) with POSIX record locks, which are dropped when the process closes any
    descriptor of the file: process 1 opens d, its second open of d fails as it should --
    and releases the record lock; process 2 then opens d while process 1 still has it open.
-   (Reproduced on the implementation: see checks/c20.py `lock2`, kind
-   lock-dropped-by-failed-open.) *)
+   Found on the implementation by checks/c20.py (`lock2`: F_GETLK probe from a forked child
+   before and after the failed second open, kind lock-dropped-by-failed-open) and repaired
+   in /repo by fix 96e3fcf, after which the code is the [check_first = true] variant of
+   C20_exclusive_processes_checked. *)
 Definition lock_drop_witness : list mp_op := [POpen 1 [100]; POpen 1 [100]; POpen 2 [100]].
 
 Theorem C20_exclusive_processes_refuted :
